@@ -543,6 +543,12 @@ def gen_op(r, ref, malformed, obj=False):
     if k in ('al', 'sl'):
         return (k, inl(), q8(r))
     if k in ('aq', 'sq'):
+        if ref.quad and r.random() < .25:
+            # an edit that leaves an interaction in the model with bias exactly 0 (the interaction still exists: it is
+            # listed by quadratic / adj / degree): a cancelling add, from either side, or an explicit set to 0
+            kk = r.choice(sorted(ref.quad, key=lambda s: sorted(map(lab, s))))
+            u, v = tuple(kk) if r.random() < .5 else tuple(kk)[::-1]
+            return (k, u, v, F(-ref.quad[kk]) if k == 'aq' else F(0))   # F(): the reference may hold an (exact) float
         u, v = inl(), inl()
         while v == u:
             v = anyl()
@@ -567,6 +573,14 @@ def gen_op(r, ref, malformed, obj=False):
     if k == 'fx':
         return (k, inl(), F(r.choice([-1, 0, 1, 1, 2, 3]), r.choice([1, 1, 2])))
     if k == 'ct':
+        # half of the contractions are of two variables that interact; an interaction whose bias an earlier edit
+        # cancelled to an explicit zero is preferred (state reached through history only)
+        if ref.quad and r.random() < .6:
+            ks = sorted(ref.quad, key=lambda s: sorted(map(lab, s)))
+            zs = [kk for kk in ks if ref.quad[kk] == 0]
+            kk = r.choice(zs if zs and r.random() < .7 else ks)
+            u, v = tuple(kk)
+            return (k, u, v) if r.random() < .5 else (k, v, u)
         return (k, inl(), inl())
     if k == 'fl':
         return (k, inl())
@@ -990,6 +1004,19 @@ def bqm_history(ctx, r, dt, nops, lines, expect, meta, malformed_rate, script=No
         except Exception as e:  # noqa
             exc = e
         ctx.tick(f'{k}:{via if via == "d" else "view"}' + (':raises' if exc is not None else ''))
+        if k == 'ct' and len(op) == 3 and op[1] != op[2]:
+            try:
+                kk0 = pkey(op[1], op[2])
+                ctx.tick('ct:' + ('no-interaction' if kk0 not in before.quad else
+                                  'zero-bias-interaction' if before.convert(tv).quad[kk0] == 0 else 'interaction'))
+            except TypeError:
+                pass
+        if k in ('fx', 'fl', 'rv') and len(op) >= 2 and op[1] is not None:
+            try:
+                if any(x == 0 for _, x in before.convert(tv).nbrs(op[1])):
+                    ctx.tick(f'{k}:has-zero-bias-neighbour')
+            except Exception:  # noqa
+                pass
         if exc is not None:
             ctx.tick('exc:' + type(exc).__name__)
         if k in ('aqd', 'ala') and via == 'd' and is_range(before.labels) and len(op[1]) > len(before.labels):
